@@ -355,7 +355,13 @@ def selection_text(sel, indent=1):
     for n in sel:
         k = n["k"]
         if k == "typename":
-            lines.append(pad + "__typename")
+            head = (n["alias"] + ": " if n.get("alias") else "") + "__typename"
+            if n.get("sel"):
+                lines.append(pad + head + " {")
+                lines.append(selection_text(n["sel"], indent + 1))
+                lines.append(pad + "}")
+            else:
+                lines.append(pad + head)
         elif k == "spread":
             lines.append(pad + "..." + n["name"])
         elif k == "inline":
